@@ -22,17 +22,17 @@ Proof.
   split; [reflexivity|]. split; [auto|]. intros al H _. exists al. repeat split; auto. apply incl_refl.
 Qed.
 
-Section Mono.
-Variables (t : svc) (a a' : st).
-Hypothesis Ia : Inv a.
-Hypothesis Ia' : Inv a'.
-Hypothesis E : ext t a a'.
+(* the general form: same pools, and every holding of a is a holding of a' of the
+   same service with the same ports and key *)
+Definition covers (a a' : st) : Prop :=
+  s_pools a' = s_pools a /\
+  forall e x, In e (allocated a) -> In x (a_ips (snd e)) ->
+    exists e', In e' (allocated a') /\ fst e' = fst e /\ In x (a_ips (snd e')) /\
+               a_ports (snd e') = a_ports (snd e) /\ a_key (snd e') = a_key (snd e).
 
-(* every holding of a is a holding of a' with the same ports and key *)
-Lemma ext_holding e x : In e (allocated a) -> In x (a_ips (snd e)) ->
-  exists e', In e' (allocated a') /\ fst e' = fst e /\ In x (a_ips (snd e')) /\
-             a_ports (snd e') = a_ports (snd e) /\ a_key (snd e') = a_key (snd e).
+Lemma ext_covers t a a' : Inv a -> Inv a' -> ext t a a' -> covers a a'.
 Proof.
+  intros Ia Ia' E. split; [exact (proj1 E)|]. intros e x.
   destruct E as (_ & Eo & Et). destruct e as [u al]. cbn. intros Hin Hx.
   apply (get_alloc_In a u al (proj1 Ia)) in Hin.
   destruct (N.eq_dec u t) as [->|Hne].
@@ -42,11 +42,27 @@ Proof.
   - exists (u, al). cbn. split; [apply (get_alloc_In a' u al (proj1 Ia')); rewrite (Eo u Hne); exact Hin|]. auto.
 Qed.
 
+(* a sub-state: every allocation of a is an allocation of a' *)
+Definition sub (a a' : st) : Prop :=
+  s_pools a' = s_pools a /\ forall u al, get_alloc a u = Some al -> get_alloc a' u = Some al.
+Lemma sub_covers a a' : Inv a -> Inv a' -> sub a a' -> covers a a'.
+Proof.
+  intros Ia Ia' [Hp Hs]. split; [exact Hp|]. intros [u al] x Hin Hx. cbn in *.
+  exists (u, al). cbn. split; [|auto].
+  apply (get_alloc_In a' u al (proj1 Ia')). apply Hs. apply (get_alloc_In a u al (proj1 Ia)). exact Hin.
+Qed.
+
+Section Mono.
+Variables (a a' : st).
+Hypothesis Ia : Inv a.
+Hypothesis Ia' : Inv a'.
+Hypothesis E : covers a a'.
+
 Lemma check_sharing_anti s x ports k :
   check_sharing a' s x ports k = true -> check_sharing a s x ports k = true.
 Proof.
   rewrite (check_sharing_iff a' s x ports k Ia'), (check_sharing_iff a s x ports k Ia).
-  intros H e He Hne Hx. destruct (ext_holding e x He Hx) as (e' & He' & Hf & Hx' & Hp & Hk).
+  intros H e He Hne Hx. destruct (proj2 E e x He Hx) as (e' & He' & Hf & Hx' & Hp & Hk).
   rewrite <- Hp, <- Hk. apply H; [exact He'|congruence|exact Hx'].
 Qed.
 
